@@ -304,7 +304,7 @@ func (c *Ctx) frameObligations(fr *Frame, con *Contract, r retPoint, rn string, 
 				exc = append(exc, Eq(q, a.ref))
 			}
 		}
-		goal := Implies(And(Le(Num(0), q), Lt(q, alloc0), Not(Or(exc...))), Eq(Select(fin, q), Select(ini, q)))
+		goal := Implies(And(Lt(q, alloc0), Not(Or(exc...))), Eq(Select(fin, q), Select(ini, q)))
 		c.oblige(fr, "frame", k+"@"+rn, r.st, goal, "objects allocated at entry keep their "+k+" unless listed in modifies", r.pos)
 	}
 }
